@@ -151,7 +151,7 @@ def check(prop, tier, threads, mc_cfg, gen_cfg, split, maxlen, walks, walk_len, 
         rec = rt_record.record_many(rt, SEED, prop, ntr, list(threads), 30)
         nval, rejected, tres = rt_record.validate(rec, sc)
         for idx, line in rejected:
-            tr = rec[idx][:line]
+            tr = rec[idx][:max(line, 1)]
             rep.violation({"trace": [{k: v for k, v in e.items() if k != "res"} for e in tr],
                            "observed": tr[-1].get("res", tr[-1].get("exc"))},
                           {"kind": "rt-trace", "threads": list(threads), "trace": tr, "rejected_at": line})
